@@ -915,7 +915,14 @@ def mon_C16(ops, results):
         name, pos, args = parse_op(line)
         res = results[i] if i < len(results) else ""
         if name == "feed" and res.startswith("r=ok"):
-            feeds[pos[0]] = {"coll": pos[1], "dump": arg(args, "dump", "0") != "0"}
+            feeds[pos[0]] = {"coll": pos[1], "colls": [pos[1]], "dump": arg(args, "dump", "0") != "0", "dropped": set()}
+        elif name == "mfeed" and res.startswith("r=ok"):
+            cs = pos[1].split(",")
+            feeds[pos[0]] = {"coll": cs[0], "colls": cs, "dump": False, "dropped": set()}
+        elif name == "dropcoll" and res.startswith("r=ok"):
+            for f in feeds.values():
+                if pos[0] in f["colls"]:
+                    f["dropped"].add(pos[0])
         elif name == "lifestate" and res.startswith("r=ok"):
             rf = res_fields(res)
             if rf.get("afterdone", "0") != "0":
@@ -932,10 +939,8 @@ def mon_C16(ops, results):
             for fid, v in done.items():
                 if v == "1" and prev.get(fid, "0") == "0" and not feeds[fid]["dump"]:
                     cname, cpos, cargs = cause
-                    legit = (cname == "stopfeed" and cpos and cpos[0] == fid) or (cname == "dropcoll" and cpos and cpos[0] == feeds[fid]["coll"]) \
-                        or cname in ("cadh", "hclose", "feed", "probe")
-                    if cname in ("feed", "probe"):
-                        legit = False
+                    legit = (cname == "stopfeed" and cpos and cpos[0] == fid) or (cname == "dropcoll" and cpos and cpos[0] in feeds[fid]["colls"]) \
+                        or cname in ("cadh", "hclose")
                     if not legit:
                         out.append(viol("C16.ends-only-its-own-feed", i, "feed %s (on %s) ended after `%s`" % (fid, feeds[fid]["coll"], ops[j])))
                 if v == "1" and prev.get(fid) == "1":
@@ -948,7 +953,7 @@ def mon_C16(ops, results):
             rf = res_fields(res)
             coll = pos[0]
             for fid, f in feeds.items():
-                if f["coll"] != coll or fid not in rf:
+                if coll not in f["colls"] or fid not in rf or coll in f["dropped"]:
                     continue
                 got = rf[fid]
                 if got.startswith("stray"):
@@ -958,7 +963,7 @@ def mon_C16(ops, results):
                 elif done.get(fid) == "1" and got != "0":
                     out.append(viol("C16.no-delivery-after-end", i, "ended feed %s received %s event(s)" % (fid, got)))
             for k, v in rf.items():
-                if k in feeds and feeds[k]["coll"] != coll and v.startswith("stray"):
+                if k in feeds and coll not in feeds[k]["colls"] and v.startswith("stray"):
                     out.append(viol("C16.other-collections-feeds-untouched", i, "feed %s (on %s) received an event for a write to %s" % (k, feeds[k]["coll"], coll)))
     return out
 
